@@ -337,6 +337,20 @@ class Model:
         ctx['done'][n] = True
         return True
 
+    def failed_below(self, n, ctx, seen):
+        for d in self.R[n].seen:
+            if d not in self.R or not self.is_target(d):
+                continue
+            if self.R[d].failed and ctx['done'].get(d) is False:
+                return True
+            if ctx['done'].get(d) is True and d not in ctx['ran']:
+                continue        # merely checked in this run: redo does not look below it again
+            if d not in seen:
+                seen.add(d)
+                if self.failed_below(d, ctx, seen):
+                    return True
+        return False
+
     def parallel_dirty_at_start(self, n, ctx):
         """Parallel command: n comes out clean only because, in this model's sequential order, a sibling had already dealt with
         what made it dirty (rebuilt a dependency that had failed last time to the same checksum, turned a target whose rule is
@@ -520,8 +534,15 @@ class Model:
                     r.watch_absent = w
             elif not depfail:
                 r.watch_absent = None
-        if depfail or p.fails(n):
+        if depfail or p.fails(n) or p.hfails(n):
             r.failed = True
+            # Targets that were *executed* earlier in this run and have n below them are not up to date any more (a forced rebuild
+            # of n that fails after its dependents were built): redo re-examines executed targets when they are requested again
+            # (only targets it merely checked carry the "checked in this run" mark) and finds the failed dependency.
+            ctx['done'][n] = False
+            for dn in [x for x, okd in ctx['done'].items() if okd and x in ctx['ran'] and x != n]:
+                if self.failed_below(dn, ctx, set()):
+                    del ctx['done'][dn]
             return False
         if r.removed_mark:
             # (a failed attempt leaves the file missing: redo goes on treating the target as changed until a build succeeds)
